@@ -108,6 +108,11 @@ type scn struct {
 	msgN     int
 	apiBound time.Duration // watchdog of one command call (0: waitBound)
 	canRet   []bool        // the future of command n was already cancelled when the call returned
+	opt      func(s *scn, sv *client.Service, cfg *client.Config) // option values of the sweep (optsweep.go), applied after the defaults
+	qdefault bool          // client.NewService() without an argument (documented default capacity 100; qcap says 100)
+	observe  bool          // a scenario that records what the unchanged tree does (a finding): no liveness / stop verdicts of its own
+	times    []time.Time   // when each event line was recorded
+	cbFut    chan client.GenericFuture // futures of requests issued from inside a callback (ok-*)
 
 	svc     *client.Service
 	cfg     *client.Config
@@ -133,6 +138,7 @@ func (s *scn) ev(format string, a ...interface{}) {
 	l := fmt.Sprintf(format, a...)
 	s.mu.Lock()
 	s.lines = append(s.lines, l)
+	s.times = append(s.times, time.Now())
 	w := l
 	if i := strings.IndexByte(l, ' '); i > 0 {
 		w = l[:i]
@@ -346,11 +352,11 @@ func (s *scn) logger(msg string) {
 		s.ev("next")
 	case strings.HasPrefix(msg, "Connect Error: "):
 		r := classifyFutErr(msg[len("Connect Error: "):])
-		s.noteTimeout(r)
+		s.noteTimeout(r, "ConnectTimeout", s.svc.ConnectTimeout)
 		s.ev("connfail %s", r)
 	case strings.HasPrefix(msg, "Resubscribe Error: "):
 		r := classifyFutErr(msg[len("Resubscribe Error: "):])
-		s.noteTimeout(r)
+		s.noteTimeout(r, "ResubscribeTimeout", s.svc.ResubscribeTimeout)
 		s.ev("resubfail %s", r)
 	case strings.HasPrefix(msg, "Subscribe Error: "):
 		s.ev("disperr sub")
@@ -372,8 +378,13 @@ func (s *scn) logger(msg string) {
 
 // the liveness expectations of a script assume that the scripted peers meet their obligation (prompt answers);
 // a timeout on an attempt whose peer is fault free means the machine did not let them
-func (s *scn) noteTimeout(r string) {
+func (s *scn) noteTimeout(r string, option string, configured time.Duration) {
 	if r != "timeout" {
+		return
+	}
+	if configured <= 0 {
+		// "If no time has been provided the wait will never time out" (Future.Wait): zero and negative mean no deadline
+		s.direct("reconnect", fmt.Sprintf("the-wait-timed-out-although-%s-is-%v(no-deadline)", option, configured))
 		return
 	}
 	s.mu.Lock()
@@ -428,6 +439,9 @@ func (g *gateSession) AllPackets(dir session.Direction) ([]packet.Generic, error
 
 func (s *scn) setup() {
 	sv := client.NewService(s.qcap)
+	if s.qdefault {
+		sv = client.NewService()
+	}
 	sv.MinReconnectDelay = 1 * time.Millisecond
 	sv.MaxReconnectDelay = 4 * time.Millisecond
 	sv.ConnectTimeout = tmoLong
@@ -435,6 +449,9 @@ func (s *scn) setup() {
 		sv.ConnectTimeout = s.ctmo
 	}
 	sv.ResubscribeTimeout = tmoLong
+	if s.ctmo > 0 {
+		sv.ResubscribeTimeout = 5 * time.Second // t-*: a wait for the CONNACK that uses another option's value stands out
+	}
 	sv.DisconnectTimeout = 20 * time.Millisecond
 	sv.QueueTimeout = s.qtmo
 	sv.Logger = s.logger
@@ -486,6 +503,9 @@ func (s *scn) setup() {
 	}
 	s.svc = sv
 	s.cfg = cfg
+	if s.opt != nil {
+		s.opt(s, sv, cfg)
+	}
 }
 
 // ---- API wrappers.  With the monitor, the harness orders the calls itself (apiMu) and
